@@ -86,7 +86,12 @@ class FlowGen:
             # always guarded, so that an unguarded UnboundLocalError is known to come from a read
             return [ind + 'try:', ind + '    del %s' % v, ind + 'except NameError as e_:',
                     ind + "    log(('del', type(e_).__name__))"]
-        if r < 0.52 and self.profile[v] == 'obj':
+        if r < 0.48 and v not in self.closure_ok:
+            # unguarded del followed by a read in the same basic block; the marker makes a raising del recognisable
+            self.feat.add('del-then-read')
+            return [ind + "log(('predel', '%s'))" % v, ind + 'del %s' % v, ind + 'try:', ind + '    log(%s)' % v,
+                    ind + 'except NameError as e_:', ind + "    log(('unb', type(e_).__name__))"]
+        if r < 0.54 and self.profile[v] == 'obj':
             u = self.var()
             self.feat.add('copy')
             return [ind + '%s = [%s]' % (v, u)]
@@ -110,7 +115,7 @@ class FlowGen:
         if depth >= self.max_depth:
             return self.leaf(ind)
         kinds = [('leaf', 30), ('if', 20), ('for', 9), ('while', 5), ('try', 12), ('tryfin', 6), ('with', 5), ('match', 4),
-                 ('comp', 3), ('inner', 9), ('exc_as', 4), ('forvar', 4)]
+                 ('comp', 3), ('inner', 9), ('exc_as', 4), ('forvar', 4), ('elseprobe', 6)]
         if 'loop' in self.stack:
             kinds.append(('brk', 8))
         tot = sum(w for _, w in kinds)
@@ -143,6 +148,22 @@ class FlowGen:
                 self.feat.add('for-else')
                 out += [ind + 'else:'] + self.block(i2, depth + 1, 1, 2)
             return out
+        if k == 'elseprobe':
+            # a variable bound only inside a loop body / try body and read in the else clause (which also runs after
+            # zero iterations) or after the statement
+            v = self.var()
+            self.feat.add('else-probe')
+            self.nloop += 1
+            rd = [i2 + 'try:', i2 + '    log(%s)' % v, i2 + 'except NameError as e_:', i2 + "    log(('unb', type(e_).__name__))"]
+            form = rng.choice(['for', 'while', 'try'])
+            if form == 'for':
+                return [ind + 'for i%d in range(%s):' % (self.nloop, self.bit()), i2 + '%s = %s' % (v, self.value(v)), ind + 'else:'] + rd
+            if form == 'while':
+                c = 'c%d' % self.nloop
+                return [ind + '%s = 0' % c, ind + 'while %s < (%s):' % (c, self.bit()), i2 + '%s += 1' % c,
+                        i2 + '%s = %s' % (v, self.value(v)), ind + 'else:'] + rd
+            return [ind + 'try:', i2 + 'if %s:' % self.bit(), i2 + '    raise ValueError(%d)' % self.newid(),
+                    i2 + '%s = %s' % (v, self.value(v)), ind + 'except ValueError:'] + rd
         if k == 'forvar':
             # the loop target is one of the tracked variables: unbound after an empty loop
             v = self.var()
